@@ -365,8 +365,9 @@ class C37(Prop):
                     vk = "active_profile_never_picked_in_env"
                 elif active.id not in picked:
                     vk = "active_profile_not_picked_since_env_became_current"
-                if vk is not None and (vk, kind) not in reported:
-                    reported.add((vk, kind))
+                key = (vk, kind, attrs["deleted_env_was_current"])
+                if vk is not None and key not in reported:
+                    reported.add(key)
                     r.v(vk, **attrs)
             prev_env, prev_active = cur, active
 
